@@ -156,17 +156,21 @@ func runS3(c *vkit.Ctx, idx int) {
 	c.Eval(1)
 	var hist []porcupine.Operation
 	fam := groupFamilies(pool)
-	foreign, hits := "", map[string]bool{}
+	foreign, foreignRel, hits := "", "other", map[string]bool{}
+	var foreignWit map[string]any
 	var wOps []string
 	for cl := range recs {
 		for _, o := range recs[cl] {
 			hist = append(hist, porcupine.Operation{ClientId: cl, Input: o.t.id(), Call: o.call, Output: o.obj.id, Return: o.rt})
 			hits[o.t.id()] = true
-			wOps = append(wOps, fmt.Sprintf("c%d [%d,%d] GetOrCreate%s -> #%d(created for %s)", cl, o.call, o.rt, o.t, o.obj.id, o.obj.createdWith))
+			wOps = append(wOps, fmt.Sprintf("[%4d,%4d] c%d GetOrCreate%s -> #%d(created for %s)", o.call, o.rt, cl, o.t, o.obj.id, o.obj.createdWith))
+			if o.rt != o.call+1 {
+				c.Event("s3_operations_overlapped", 1) // another call or return happened inside this operation
+			}
 			if o.obj.createdWith.id() != o.t.id() && foreign == "" {
 				foreign = fmt.Sprintf("GetOrCreate%s returned the object created for %s", o.t, o.obj.createdWith)
-				c.Violation("s3:foreign-object:"+relation(o.t, o.obj.createdWith),
-					"concurrent GetOrCreate: "+foreign, map[string]any{"stage": 3, "pool": poolStrings(pool), "caller_tuple_hex": o.t.id(), "object_created_for_hex": o.obj.createdWith.id()})
+				foreignRel = relation(o.t, o.obj.createdWith)
+				foreignWit = map[string]any{"stage": 3, "case_index": idx, "pool": poolStrings(pool), "caller_tuple_hex": o.t.id(), "object_created_for_hex": o.obj.createdWith.id()}
 			}
 		}
 	}
@@ -182,7 +186,7 @@ func runS3(c *vkit.Ctx, idx int) {
 		if k > 1 {
 			t, _ := tupleFromID(tid)
 			c.Violation("s3:created-twice", fmt.Sprintf("concurrent GetOrCreate: the constructor ran %d times for tuple %s", k, t),
-				map[string]any{"stage": 3, "pool": poolStrings(pool), "tuple_hex": tid, "history": wOps})
+				map[string]any{"stage": 3, "case_index": idx, "pool": poolStrings(pool), "tuple_hex": tid, "history": wOps})
 		}
 	}
 	cmu.Unlock()
@@ -191,25 +195,25 @@ func runS3(c *vkit.Ctx, idx int) {
 	switch res {
 	case porcupine.Ok:
 		c.Event("s3_histories_linearizable", 1)
+		if foreign != "" {
+			// the sequential model cannot see this when nobody asked for the other tuple in the same history
+			c.Violation("s3:foreign-object:"+foreignRel, "concurrent GetOrCreate: "+foreign, foreignWit)
+		}
 	case porcupine.Unknown:
 		c.Inconclusive(fmt.Sprintf("s3 history %d: porcupine gave no verdict within its cap", idx))
 	default:
 		c.Event("s3_histories_illegal", 1)
-		cls := "other"
-		if foreign != "" {
-			cls = "foreign-object"
-		}
-		c.Violation("s3:not-linearizable:"+cls,
+		c.Violation("s3:not-linearizable:"+foreignRel,
 			"history of concurrent GetOrCreate calls is not linearizable w.r.t. 'create at most once per tuple, every caller gets that tuple's object'"+
 				map[bool]string{true: " (" + foreign + ")", false: ""}[foreign != ""],
-			map[string]any{"stage": 3, "pool": poolStrings(pool), "clients": nClients, "history": wOps})
+			map[string]any{"stage": 3, "case_index": idx, "pool": poolStrings(pool), "clients": nClients, "history": wOps})
 	}
 	if idx < 2 {
 		h := wOps
 		if len(h) > 8 {
 			h = h[:8]
 		}
-		c.Sample(map[string]any{"stage": 3, "pool": poolStrings(pool), "clients": nClients, "history_excerpt": h, "verdict": string(res)})
+		c.Sample(map[string]any{"stage": 3, "case_index": idx, "pool": poolStrings(pool), "clients": nClients, "history_excerpt": h, "verdict": string(res)})
 	}
 }
 
